@@ -11,7 +11,9 @@ Values mirror Coq `value`:
   int | None | ('some', v) | ('list', [v...]) | ('struct', [v...]) | ('union', arm_index, v)
 """
 import itertools
+import os
 import random
+import zlib
 
 SCALARS = ['u8', 'u16', 'u32', 'u64', 'i8', 'i16', 'i32', 'i64', 'r32', 'r64']
 SIZE = {'u8': 1, 'u16': 2, 'u32': 4, 'u64': 8, 'i8': 1, 'i16': 2, 'i32': 4, 'i64': 8, 'r32': 4, 'r64': 8}
@@ -83,6 +85,29 @@ def type_text(t):
     return t[1]
 
 
+def alias_chain(owner, fname, t):
+    """typedef aliases the text printer puts on a member's type. Deterministic in the names (so every
+    printing of one schema is the same text): about one member in three gets a chain of 1..3 typedefs
+    declared right before the composite that uses it. Typedefs are transparent for layout, values and
+    the API, so nothing else in the harness knows about them; the Coq terms see the target type."""
+    if os.environ.get("VERIF_NO_TYPEDEFS") or t[0] == 'byte':
+        return []
+    h = zlib.crc32(("%s.%s" % (owner, fname)).encode())
+    if h % 3 != 0:
+        return []
+    depth = 1 + (h // 3) % 3
+    return ["Td_%s_%s%s" % (owner, fname, "" if j == 0 else "_%d" % j) for j in range(depth)]
+
+
+def typedef_lines(owner, fname, t):
+    names = alias_chain(owner, fname, t)
+    out, prev = [], type_text(t)
+    for n in names:
+        out.append('typedef %s %s;' % (prev, n))
+        prev = n
+    return out, prev
+
+
 def sugar_sizers(fields):
     """indices of counter members that the text syntax creates implicitly (x<> and x<n>)"""
     hidden = set()
@@ -98,9 +123,9 @@ def sugar_sizers(fields):
     return hidden
 
 
-def member_text(fields, i):
+def member_text(fields, i, owner=None):
     fname, k, ft = fields[i]
-    tt = type_text(ft)
+    tt = typedef_lines(owner, fname, ft)[1] if owner else type_text(ft)
     if k[0] == 'plain':
         return '%s %s;' % (tt, fname)
     if k[0] == 'opt':
@@ -124,11 +149,13 @@ def decl_text(d):
         return 'enum %s\n{\n%s\n};\n' % (d[1], ',\n'.join('    %s = %d' % m for m in d[2]))
     if d[0] == 'struct':
         hidden = sugar_sizers(d[2])
-        lines = ['    ' + member_text(d[2], i) for i in range(len(d[2])) if i not in hidden]
-        return 'struct %s\n{\n%s\n};\n' % (d[1], '\n'.join(lines))
+        tds = [l for i, (fname, k, ft) in enumerate(d[2]) if i not in hidden for l in typedef_lines(d[1], fname, ft)[0]]
+        lines = ['    ' + member_text(d[2], i, d[1]) for i in range(len(d[2])) if i not in hidden]
+        return ''.join(l + '\n' for l in tds) + 'struct %s\n{\n%s\n};\n' % (d[1], '\n'.join(lines))
     if d[0] == 'union':
-        return 'union %s\n{\n%s\n};\n' % (
-            d[1], '\n'.join('    %d: %s %s;' % (disc, type_text(at), an) for disc, an, at in d[2]))
+        tds = [l for disc, an, at in d[2] for l in typedef_lines(d[1], an, at)[0]]
+        return ''.join(l + '\n' for l in tds) + 'union %s\n{\n%s\n};\n' % (
+            d[1], '\n'.join('    %d: %s %s;' % (disc, typedef_lines(d[1], an, at)[1], an) for disc, an, at in d[2]))
     raise ValueError(d)
 
 
